@@ -78,10 +78,19 @@ def engine(name):
     return e
 
 
+# termination is part of the property and a parse has no step counter to put a horizon on: every case runs under a
+# wall-clock limit four orders of magnitude above the normal cost (0.1 ms) and well above the slowest accepted input
+# (the quadratic 9...9a family, 2.2 s at 4301 digits)
+CASE_SECONDS = 30
+
+
 def outcome(eng, text):
     """('statement',) | ('lexical'|'grammar', position, value) | ('other', exception)."""
     try:
-        st = eng(text)
+        with core.case_limit(CASE_SECONDS):
+            st = eng(text)
+    except core.CaseTimeout:
+        return ('other', TimeoutError('parse did not finish within %d s' % CASE_SECONDS))
     except yexc.YaqlLexicalException as e:
         return ('lexical', e.position, e.value)
     except yexc.YaqlGrammarException as e:
@@ -109,6 +118,8 @@ def verdict(text, out):
         if isinstance(e, ValueError) and INT_LIMIT and _longest_digit_run(text) > INT_LIMIT:
             return ('numeral-ValueError int-digit-limit',
                     'ValueError: %s' % str(e)[:120])
+        if isinstance(e, TimeoutError):
+            return ('no-termination within the per-case limit', str(e))
         return ('unexpected-exception %s' % type(e).__name__, '%s: %s' % (type(e).__name__, str(e)[:200]))
     pos = out[1]
     if pos is None:
@@ -274,6 +285,12 @@ def long_text(what, n):
         return '`' + '\\' * (2 * n) + '`'
     if what == 'unterminated':
         return "'" + 'u' * n
+    if what == 'unterminated-dq':
+        return '"' + 'u v' * (n // 3) + 'u' * (n % 3)
+    if what == 'unterminated-bq':
+        return '`' + 'u' * n
+    if what == 'apostrophe-in-words':
+        return '$.p = O' + "'" + 'Reilly and Sons, ' * (n // 17) + 'r' * (n % 17)
     if what == 'digits-then-letter':
         return '9' * n + 'a'
     if what == 'underscores':
@@ -299,6 +316,7 @@ def long_text(what, n):
 
 LONG_KINDS = ['int', 'int0', 'float-int-part', 'float-fraction', 'float-both', 'sum-of-ints', 'arabic-digits',
               'keyword', 'variable', 'function', 'string', 'string-escapes', 'verbatim', 'unterminated',
+              'unterminated-dq', 'unterminated-bq', 'apostrophe-in-words',
               'digits-then-letter', 'underscores', 'illegal', 'minus-chain', 'nested-parens', 'nested-lists', 'nested-calls',
               'plus-chain', 'dot-chain', 'open-parens']
 
@@ -314,7 +332,9 @@ def job_long(kinds):
         for n in LENGTHS:
             if n > LONG_MAX.get(what, n):
                 continue
-            judge(res, 'd', 'default', long_text(what, n), {'engine': 'default', 'long': what, 'n': n})
+            out = judge(res, 'd', 'default', long_text(what, n), {'engine': 'default', 'long': what, 'n': n})
+            if out[0] == 'other' and isinstance(out[1], TimeoutError):
+                break       # longer inputs of the same kind would only wait for the limit again
     res.sample({'family': 'd', 'kinds': kinds, 'lengths': LENGTHS}, limit=1)
     return res
 
